@@ -50,6 +50,9 @@ def run(rep, tier):
     from . import c19
     rep.rule("R7", "premise: X-point selection and topology choice (C19.R4)")
     c19.r4(prog, Premise(rep, "R7", "C19"))
+    # the container the location-set analysis (R6) reasons about
+    from . import c18
+    c18.mla_rules(prog, Premise(rep, "R6", "C18"), "R3")
     rep.undecided("finiteness and positivity of written values; success of the numerics on the shipped examples")
     return __doc__
 
